@@ -12,6 +12,7 @@ pub fn targets() -> Vec<Target> {
     vec![
         Target { name: "c15_huffman", props: "C15", policy: PanicPolicy::AllViolations, max_len: 2048, run: c15::c15_huffman },
         Target { name: "c16_bits", props: "C16 C08 C18 (param selects the oracle)", policy: PanicPolicy::AllViolations, max_len: 1024, run: c16::c16_bits },
+        Target { name: "c16_batch", props: "C16", policy: PanicPolicy::AllViolations, max_len: 512, run: c16::c16_batch },
         Target { name: "c17_backends", props: "C17", policy: PanicPolicy::AllViolations, max_len: 1024, run: c17::c17_backends },
     ]
 }
